@@ -4,6 +4,7 @@ import (
 	"fmt"
 	"math"
 	"path/filepath"
+	"time"
 
 	"kvassverif/internal/core"
 	"tkestack.io/kvass/pkg/target"
@@ -24,7 +25,7 @@ func runC14(w *core.WorkerCtx, idx int) *core.CaseResult {
 	rs := RuleSets[idx%len(RuleSets)]
 	dir := filepath.Join(w.Scratch, fmt.Sprintf("c14-%d", idx))
 	promHead := r.Pick64(0, 0, 5, 50, 100000)
-	rg, err := newRigHead(dir, "10s", rs.YAML, func() (int64, error) { return promHead, nil })
+	rg, err := newRigHead(dir, rigLongTimeout, rs.YAML, func() (int64, error) { return promHead, nil })
 	if err != nil {
 		res.Inconcl = "rig: " + err.Error()
 		return res
@@ -35,6 +36,7 @@ func runC14(w *core.WorkerCtx, idx int) *core.CaseResult {
 	model := map[uint64]*c14Model{}
 	est := map[uint64][2]int64{}
 	var trace []string
+	var lastAssign map[string][]*target.Target
 	assign := func() bool {
 		m := map[string][]*target.Target{}
 		for h := uint64(1); h <= uint64(nT); h++ {
@@ -51,6 +53,7 @@ func runC14(w *core.WorkerCtx, idx int) *core.CaseResult {
 			res.Inconcl = "assign: " + err.Error()
 			return false
 		}
+		lastAssign = m
 		now := map[uint64]bool{}
 		for _, ts := range m {
 			for _, t := range ts {
@@ -195,7 +198,7 @@ func runC14(w *core.WorkerCtx, idx int) *core.CaseResult {
 		if r.Intn(9) == 0 {
 			// the coordinator pushes a new configuration in which only the job's metric relabel rules differ
 			rs = RuleSets[r.Intn(len(RuleSets))]
-			if err := rg.in.PushConfig(fmt.Sprintf(rigConfigTmpl, "10s", rs.YAML)); err != nil {
+			if err := rg.in.PushConfig(fmt.Sprintf(rigConfigTmpl, rigLongTimeout, rs.YAML)); err != nil {
 				res.Inconcl = "reload: " + err.Error()
 				break
 			}
@@ -234,12 +237,38 @@ func runC14(w *core.WorkerCtx, idx int) *core.CaseResult {
 		// server goroutine whose ordering with this goroutine goes through a socket, which the race
 		// detector cannot see (the harness' own reads would then show up as races)
 		_ = r.Intn(3)
-		o = rg.scrapeDirect(c14JobOf(h), h, 0)
+		overlap := r.Intn(5) == 0 && !fail && !w.Race && model[h] != nil
+		if overlap {
+			// the coordinator re-posts the SAME assignment while this scrape is in flight (the target is
+			// held inside the harness transport): the target stays, so the scrape must count as any other
+			bs.Gate, bs.Entered = make(chan struct{}), make(chan struct{})
+			ch := make(chan scrapeOutcome, 1)
+			go func() { ch <- rg.scrapeDirect(c14JobOf(h), h, 0) }()
+			var uerr error
+			select {
+			case <-bs.Entered:
+				uerr = rg.in.UpdateTargets(lastAssign)
+			case <-time.After(60 * time.Second):
+				uerr = fmt.Errorf("gated request not made within 60 s")
+			}
+			close(bs.Gate)
+			o = <-ch
+			if uerr != nil {
+				res.Inconcl = "update during scrape: " + uerr.Error()
+				break
+			}
+			res.AddStat("scrapes_overlapped_by_an_identical_assignment", 1)
+		} else {
+			o = rg.scrapeDirect(c14JobOf(h), h, 0)
+		}
 		res.Execs++
 		res.AddStat("scrapes", 1)
 		cnt := Expect(ss, c14RulesOf(h, rs))
 		mm := model[h]
 		op := fmt.Sprintf("scrape target %d with %d samples (kept %d) fail=%q", h, cnt.Total, cnt.Kept, failKind)
+		if overlap {
+			op += " [identical assignment re-posted while in flight]"
+		}
 		trace = append(trace, op)
 		if fail {
 			res.AddStat("scrapes_failed", 1)
@@ -317,7 +346,20 @@ func init() {
 		},
 		Run:           runC14,
 		MinNontrivial: 100,
-		Race:          true,
+		// every case runs from the normal binary (with assignments re-posted while a scrape is in flight);
+		// a prefix of the cases (incl. the multi-block payloads) runs once more from the -race binary,
+		// there without the overlapping re-post (the harness would only add its own concurrency)
+		RacePass: func(tier string) []int {
+			n := 600
+			if tier == "thorough" {
+				n = 6000
+			}
+			l := make([]int, n)
+			for i := range l {
+				l[i] = i
+			}
+			return l
+		},
 		RaceAttribute: func(rep core.RaceReport) (string, bool) {
 			if rep.Sides("scrape.StatisticSeries", "scrape.StatisticSeries") {
 				return "C14/race-in-statistics", true
